@@ -463,6 +463,28 @@ def _inherent(head, last, plain, c):
             if mx: return a[1] if r != "Greater" else a[0]
             return a[0] if r != "Greater" else a[1]
         return cm
+    if head == "Ordering" or plain.startswith(("std::cmp::Ordering::", "core::cmp::Ordering::")):
+        def ordm(I, a, fr, d):
+            o = deref(a[0]).variant
+            if last == "is_lt": return o == "Less"
+            if last == "is_le": return o != "Greater"
+            if last == "is_gt": return o == "Greater"
+            if last == "is_ge": return o != "Less"
+            if last == "is_eq": return o == "Equal"
+            if last == "is_ne": return o != "Equal"
+            if last == "reverse": return ordering(I, {"Less": "Greater", "Greater": "Less", "Equal": "Equal"}[o])
+            if last == "then": return a[1] if o == "Equal" else a[0]
+            if last == "then_with": return I.call_value(a[1], []) if o == "Equal" else a[0]
+            raise Unmodelled("Ordering::" + last)
+        return ordm
+    if plain in ("std::iter::repeat", "core::iter::repeat", "std::iter::repeat_n", "core::iter::repeat_n", "std::iter::repeat_with", "core::iter::repeat_with"):
+        def rep(I, a, fr, d):
+            if plain.endswith("repeat_n"):
+                n = a[1].v if a[1].concrete else I.E.concretize(a[1], cap=4200, label="repeat_n")
+                return Iter("list", xs=[clone_val(a[0]) for _ in range(n)], i=0)
+            if plain.endswith("repeat_with"): return Iter("from_fn", f=PyFn(lambda I_, : some(I_, I_.call_value(a[0], [])), "repeat_with"))
+            return Iter("from_fn", f=PyFn(lambda I_, : some(I_, clone_val(a[0])), "repeat"))
+        return rep
     if plain in ("std::iter::from_fn", "core::iter::from_fn"):
         return lambda I, a, fr, d: Iter("from_fn", f=a[0])
     if plain in ("once", "std::iter::once", "core::iter::once"):
